@@ -128,6 +128,19 @@ theorem exists_orthonormal_ker (E : Matrix (Fin N) (Fin r) ℂ) (hn : n + E.rank
         Matrix.mul_zero]
     exact eq_zero_of_trace_re _ (by rw [h2]; simp)
 
+/-- … and not more: `n` orthonormal vectors orthogonal to the interference force `n + rank E ≤ N` -/
+theorem rank_room_of_orthonormal_ker (E : Matrix (Fin N) (Fin r) ℂ) (P : Matrix (Fin N) (Fin n) ℂ)
+    (h1 : Pᴴ * P = 1) (h2 : Eᴴ * P = 0) : n + E.rank ≤ N := by
+  have hrank : P.rank = n := by
+    rw [← rank_conjTranspose_mul_self P, h1, rank_one, Fintype.card_fin]
+  have hle : LinearMap.range P.mulVecLin ≤ LinearMap.ker Eᴴ.mulVecLin := by
+    rintro x ⟨y, rfl⟩
+    rw [LinearMap.mem_ker, mulVecLin_apply, mulVecLin_apply, mulVec_mulVec, h2, zero_mulVec]
+  have h3 := Submodule.finrank_mono hle
+  have h4 := finrank_ker_conjTranspose E
+  have h5 : Module.finrank ℂ (LinearMap.range P.mulVecLin) = n := hrank
+  omega
+
 /-! ### singular values of `R = pe·E Eᴴ + σ²·1` under the SVD contract -/
 
 theorem diag_gram_re_nonneg {m k : Nat} (X : Matrix (Fin m) (Fin k) ℂ) (i : Fin k) : 0 ≤ ((Xᴴ * X) i i).re := by
@@ -371,6 +384,18 @@ theorem exists_reduction_in_noise_space (pe nv : ℝ) (E : Mat ℂ N r) (hn : n 
       Matrix.mul_assoc]
     have : (toM E)ᴴ * toM (fun i j => P' i j : Mat ℂ N n) = 0 := h2
     rw [this, Matrix.mul_zero, smul_zero, zero_add]
+
+/-- no more than `N − rank E` orthonormal vectors fit into the noise eigenspace (`pe ≠ 0`) -/
+theorem room_of_reduction_in_noise_space (pe nv : ℝ) (hpe : pe ≠ 0) (E : Mat ℂ N r) (P : Mat ℂ N n)
+    (h1 : matMul (cT P) P = eye) (h2 : matMul (covExtInt pe nv E) P = fun i j => Cx.ofReal nv * P i j) :
+    n ≤ N - (toM E).rank := by
+  have h3 := (noise_eigenspace_iff pe nv hpe E P).mp h2
+  have h1' := congrArg toM h1
+  have h3' := congrArg toM h3
+  rw [toM_matMul, toM_cT, toM_eye] at h1'
+  rw [toM_matMul, toM_cT, toM_zero] at h3'
+  have := rank_room_of_orthonormal_ker (toM E) (toM P) h1' h3'
+  omega
 
 /-- for ANY matrix `P` inside the noise eigenspace (`Re P = σ² P`) and any `M`, the filter
     `W = M Pᴴ` sees the noise only: `W Re Wᴴ = σ² W Wᴴ` -/
